@@ -63,7 +63,9 @@ partial def parsePV : List String → Option (PV × List String)
     | 'I' => do some (.int (← body.toInt?), rest)
     | 'D' =>
       match body.splitOn ":" with
-      | [v, b] => do some (.float (← parseRat v) (← b.toNat?), rest)
+      | [v, b] => do
+        let v ← parseRat v
+        some (.float v (f32Pattern v (← b.toNat?)), rest)   -- the exact value decides whether there is a pattern
       | _ => none
     | 'S' => do some (.str (← parseHex body), rest)
     | 'B' => do some (.bytes (← parseHex body), rest)
@@ -101,6 +103,7 @@ def errName : Err → String
   | .unicodeEncode => "UnicodeEncodeError"
   | .msgBuild => "OscMessageBuildError"
   | .bundleBuild => "OscBundleBuildError"
+  | .overflow => "OverflowError"
   | .parse e => derrName e
   | .notModelled => "NOT-MODELLED"
 
